@@ -28,7 +28,7 @@ constructor's other refusals: a window width <= 0, a palette colour LUT with flo
 belong together, the content label guard), the constructor builds an object exactly for the
 inputs of `Admitted`: uint8/uint16 (native byte order) -> `PixelData`, bits allocated = stored = 8*itemsize,
 high bit, unsigned; float32 -> `FloatPixelData`, 32 bits; float64 -> `DoubleFloatPixelData`, 64 bits (no bits
-stored / high bit / pixel representation); rank 2, 3 or 4; a flat mapping sequence for rank 2/3, a
+stored / high bit / pixel representation); rank 2, 3 or 4; 1..65535 rows and columns; a flat mapping sequence for rank 2/3, a
 nested one with one list per channel for rank 4; as many plane positions as planes; a compressed
 transfer syntax only for unsigned integers. -/
 theorem built_iff_admitted (x : PMInput) :
@@ -90,6 +90,22 @@ theorem refuses_position_count (x : PMInput) (h : x.nPositions ≠ x.n) : ∃ e,
   apply build_refused
   rintro ⟨attr, ba, bs, hb, pr, ha⟩
   exact h ha.positions
+
+/-- **Arrays whose planes Rows / Columns cannot describe are refused** (0 rows or columns, more than 65535; audit 2, finding
+C19-pm-shape-out-of-range fixed in /repo 5a4fe2e: the native arm of the constructor never reached `encode_frame`'s check). -/
+theorem refuses_shape_out_of_range (x : PMInput) (h : x.r < 1 ∨ 65535 < x.r ∨ x.c < 1 ∨ 65535 < x.c) : ∃ e, build x = .error e := by
+  apply build_refused
+  rintro ⟨attr, ba, bs, hb, pr, ha⟩
+  have := ha.shape; omega
+
+/-- ... hence every map that is built has at least one pixel per plane and Rows / Columns within 1..65535 (the guard is part of the
+regenerated constructor guards: `tie_constructor_guards`, T19t `pmShapeRangeAxes / Lo / Hi`) -/
+theorem built_maps_have_describable_shape (x : PMInput) (o : PMObject) (h : build x = .ok o) :
+    0 < x.r * x.c ∧ shapeInRange x.r x.c = true := by
+  have hs := (element_and_bits x o h).1.shape
+  refine ⟨Nat.mul_pos (by omega) (by omega), ?_⟩
+  unfold shapeInRange
+  simp only [decide_eq_true_eq]; omega
 
 /-- floating point data with an encapsulated transfer syntax is refused -/
 theorem refuses_compressed_float (x : PMInput) (hk : x.dtypeKind ≠ "u")
@@ -197,11 +213,13 @@ theorem stored_frames_exact_encapsulated_through_readers_partial (c : CodecImpl)
   rw [pm_encapsulated_readers_eq c conv x.ts e f b hb henc index]
   exact readStoredFrameEncapsulated_build c hc conv x e h hts f hf
 
+/- Full statement: every admitted integer map; here uint8 / uint16 cells (`itemsize` 1 or 2) -- the only integer dtypes the
+   constructor admits -- and Rows / Columns in 1..65535, which every built map has (`built_maps_have_describable_shape`). -/
 /-- **The native read path goes through `decode_frame`** (closing the step from cells to numbers): what a reader of the image
 classes (`readFrame`: the call regenerated in T13g, dispatch T13c) makes of the raw bytes of a frame of a native uint8 / uint16
 map is the little-endian value of every cell of the plane -- the `cellValue`s that `read_applies_attached_mapping_partial` feeds to
 the real-world value mapping -- for any frame index.  (Cells of `itemsize` bytes below 256: what numpy's `tobytes` yields.) -/
-theorem native_frame_through_decode_frame (c : CodecImpl) (conv : List Int → List Int) (x : PMInput) (o : PMObject)
+theorem native_frame_through_decode_frame_partial (c : CodecImpl) (conv : List Int → List Int) (x : PMInput) (o : PMObject)
     (h : build x = .ok o) (hts : x.ts ∈ nativeSyntaxes) (hel : o.element = "PixelData") (hw : CellsWF x)
     (hbytes : ∀ i k j, ∀ b ∈ x.cell i k j, b < 256) (hsz : x.itemsize = 1 ∨ x.itemsize = 2)
     (hshape : shapeInRange x.r x.c = true) (i j : Nat) (index : Int) :
@@ -213,17 +231,17 @@ theorem stored_frame_out_of_range (x : PMInput) (o : PMObject) (h : build x = .o
     (hel : o.element = "PixelData") (f : Nat) (hf : x.n * x.m ≤ f) : readStoredFrame o f = .error .index := by
   obtain ⟨_, _, _, _, _, _, _, _, _, _, _, _, _, _, _, hn, _, _, _⟩ := build_ok x o h
   unfold readStoredFrame
-  have : (o.element != "PixelData") = false := by simp [hel]
-  rw [this, hn]
-  simp only [Bool.false_eq_true, ↓reduceIte]
-  rw [if_neg (by omega)]
+  rw [hn, if_pos (by omega)]
 
 /-- **Open finding C19-float-frames-unreadable**: no frame of a map stored in `FloatPixelData` /
-`DoubleFloatPixelData` can be read through the image interface (AttributeError), although the object is
-built and its pixel data element is exact (`pixel_data_is_concatenation`). -/
-theorem counterexample_float_frames (x : PMInput) (o : PMObject) (h : build x = .ok o) (hf32 : x.dtypeKind = "f") (f : Nat) :
+`DoubleFloatPixelData` can be read through the image interface on a fresh object (AttributeError; a number beyond the image is an
+IndexError first, as for every map), although the object is built and its pixel data element is exact
+(`pixel_data_is_concatenation`). -/
+theorem counterexample_float_frames (x : PMInput) (o : PMObject) (h : build x = .ok o) (hf32 : x.dtypeKind = "f") (f : Nat)
+    (hf : f < x.n * x.m) :
     readStoredFrame o f = .error .attribute := by
-  apply readStoredFrame_float
+  have hnf : f < o.numberOfFrames := by rw [(element_and_bits x o h).2.2.2]; exact hf
+  refine readStoredFrame_float o ?_ f hnf
   obtain ⟨had, _⟩ := element_and_bits x o h
   rcases had.dtype with ⟨hk, _⟩ | ⟨_, _, he, _⟩ | ⟨_, _, he, _⟩
   · rw [hf32] at hk; exact absurd hk (by decide)
@@ -287,25 +305,33 @@ theorem mapping_defined_in_range (mp : Mapping) (v : Int) :
 
 /-! ## every read path, every history (round 2; `Model/PMapRead.lean`, `Proofs/PMapRead.lean`) -/
 
-/-- **Tie, read paths**: the hand-written `readStoredFrame` (byte range of frame `f`, cells) equals the un-cached branch of
+/- Full statement: for every admitted map; here integer maps in a native transfer syntax (`readStoredFrame` and the byte-range
+   skeleton describe the native element; float maps: `float_reads_depend_on_history`; encapsulated maps:
+   `stored_frames_exact_encapsulated_through_readers_partial`). -/
+/-- **Tie, read paths** (native transfer syntaxes, integer maps): the hand-written `readStoredFrame` (byte range of frame `f`, cells) equals the un-cached branch of
 `get_stored_frame` / `get_stored_frames` written with the call skeleton and byte-range / offset arithmetic REGENERATED from
 `image.py` and `io.py` for C05 (T1, T1b, T4, T11, T11b, T11c) -- on the in-memory data set and on the lazily read file, for the
 1-based frame number and the 0-based index -- and the cached branch (`pixel_array[...]` with the regenerated subscript). -/
-theorem tie_read_paths (x : PMInput) (o : PMObject) (h : build x = .ok o) (hel : o.element = "PixelData") (hw : CellsWF x)
+theorem tie_read_paths_partial (x : PMInput) (o : PMObject) (h : build x = .ok o) (_hts : x.ts ∈ nativeSyntaxes)
+    (hel : o.element = "PixelData") (hw : CellsWF x)
     (hpos : 0 < x.r * x.c * x.itemsize) (f : Nat) (hf : f < x.n * x.m) (sk : Skel) (hsk : sk = singleSkel ∨ sk = batchSkel)
     (how : Holding) (ai : Bool) :
     storedUncached sk how o (frameKey f ai) ai = readStoredFrame o f ∧
     storedCached sk o (frameKey f ai) ai = readStoredFrame o f :=
   read_paths_tie x o h hel hw hpos f hf sk hsk how ai
 
-/-- **Reads return the stored values after every history on one object** (native integer maps; induction over the sequence
-of operations): whatever sequence of `get_stored_frame`, `get_stored_frames` elements, `pixel_array` accesses and
+/- Full statement: the same for float maps (false today: `float_reads_depend_on_history`) and for encapsulated maps (through the
+   codec; not modelled as a history). -/
+/-- **Reads return the stored values after every history on one object** (integer maps in a NATIVE transfer syntax; induction over
+the sequence of operations; the operations are reads -- a caller writing into a returned array is outside the alphabet: since
+/repo d078db8 `get_stored_frame` returns a copy also from the cached array, and the stream `history` writes into every returned
+frame before it reads again): whatever sequence of `get_stored_frame`, `get_stored_frames` elements, `pixel_array` accesses and
 `get_frame(apply_real_world_transform=True, selector)` calls -- in range or refused -- is made on one image object, held in
 memory or read lazily, starting with or without a decoded pixel array, every read returns the plane `f / m` of channel
 `f mod m` (resp. that plane under the selected mapping of that channel; `IndexError` beyond the image): the cache never changes
 what a read returns. -/
-theorem reads_after_any_history (how : Holding) (x : PMInput) (o : PMObject) (h : build x = .ok o)
-    (hel : o.element = "PixelData") (hw : CellsWF x) (hpos : 0 < x.r * x.c * x.itemsize) (hne : 0 < x.n * x.m)
+theorem reads_after_any_history_partial (how : Holding) (x : PMInput) (o : PMObject) (h : build x = .ok o)
+    (_hts : x.ts ∈ nativeSyntaxes) (hel : o.element = "PixelData") (hw : CellsWF x) (hpos : 0 < x.r * x.c * x.itemsize) (hne : 0 < x.n * x.m)
     (ops : List ReadOp) (cached : Bool) :
     run how o cached ops = ops.map (spec x) :=
   run_spec how x o h hel hw hpos hne ops cached
@@ -323,11 +349,13 @@ theorem float_reads_depend_on_history (x : PMInput) (o : PMObject) (h : build x 
     ∀ cached, (step how o cached (.real f ai sel)).2 = .reals (.error .attribute) :=
   PMap.float_reads_depend_on_history x o h hel f ai hf sel how
 
-/-- **Bit-exact storage as a statement about bit patterns** (every dtype, every element): with the array's items given as
+/-- **Bit-exact storage as a statement about bit patterns** (every dtype, every element; NATIVE transfer syntaxes -- `pixelData` is
+the native element): with the array's items given as
 `itemsize`-byte patterns -- for float32 / float64 the IEEE 754 pattern, so NaN payloads, infinities, negative zero and
 denormals are patterns like any other -- the element holds, at byte offset `((f * rows*columns) + p) * itemsize`, little-endian,
 the pattern of pixel `p` of plane `f / m`, channel `f mod m`: nothing is normalised, rounded, or re-ordered. -/
-theorem element_holds_bit_patterns (x : PMInput) (o : PMObject) (h : build x = .ok o) (bits : Nat → Nat → Nat → Nat)
+theorem element_holds_bit_patterns (x : PMInput) (o : PMObject) (h : build x = .ok o) (_hts : x.ts ∈ nativeSyntaxes)
+    (bits : Nat → Nat → Nat → Nat)
     (hcell : ∀ i p j, x.cell i p j = leBytes x.itemsize (bits i p j)) (hb : ∀ i p j, bits i p j < 256 ^ x.itemsize)
     (f p : Nat) (hf : f < x.n * x.m) (hp : p < x.r * x.c) :
     ofLeBytes ((o.pixelData.drop ((f * (x.r * x.c) + p) * x.itemsize)).take x.itemsize) = bits (f / x.m) p (f % x.m) :=
@@ -572,7 +600,7 @@ example : (build floatInput).toOption.map (fun o => (o.element, o.pixelData.take
 example (o : PMObject) (h : build exampleInput = .ok o) :
     run .lazy o false [.stored 2 false, .pixelArray, .storedBatch 3 true, .real 1 false (.label "b"), .stored 4 false] =
       [.cells (.ok [[5, 0], [7, 0]]), .done, .cells (.ok [[6, 0], [8, 0]]), .reals (.ok [4, 7]), .cells (.error .index)] := by
-  rw [reads_after_any_history .lazy exampleInput o h
+  rw [reads_after_any_history_partial .lazy exampleInput o h (by decide)
     (by have := (element_and_bits exampleInput o h).1.dtype; rcases this with ⟨_, _, he, _⟩ | ⟨hk, _⟩ | ⟨hk, _⟩
         · exact he
         · exact absurd hk (by decide)
@@ -590,13 +618,13 @@ example (e : PMEncapsulated) (h : buildEncapsulated tagCodec { exampleInput with
     readFrame tagCodec id (e.obj.module rle) [0x54, 10, 14] 2 = .ok [5, 7] :=
   stored_frames_exact_encapsulated_through_readers_partial tagCodec (tagCodec_lossless _) id { exampleInput with ts := rle } e h
     (Or.inl rfl) 2 (by decide) _ hb 2
-/-- non-vacuity of `native_frame_through_decode_frame`: the example map with every cell byte below 256; frame (plane 1, channel 0)
+/-- non-vacuity of `native_frame_through_decode_frame_partial`: the example map with every cell byte below 256; frame (plane 1, channel 0)
 through a reader that passes the frame's own index 2 -/
 def exampleInputBytes : PMInput := { exampleInput with cell := fun i k j => [((i * 2 + k) * 2 + j + 1) % 256, 0] }
 example (o : PMObject) (h : build exampleInputBytes = .ok o) (hel : o.element = "PixelData") :
     readFrame noCodec id (o.module exampleInputBytes.ts) (plane exampleInputBytes 1 0).flatten 2 =
       .ok ((plane exampleInputBytes 1 0).map cellValue) :=
-  native_frame_through_decode_frame noCodec id exampleInputBytes o h (by decide) hel (by intro i k j; rfl)
+  native_frame_through_decode_frame_partial noCodec id exampleInputBytes o h (by decide) hel (by intro i k j; rfl)
     (by intro i k j b hb
         simp only [exampleInputBytes, List.mem_cons, List.not_mem_nil, or_false] at hb
         rcases hb with rfl | rfl <;> omega)
